@@ -117,7 +117,8 @@ func fixIns(ins *x86asm.Inst, pos int, block []byte, blockSize int,
 
 	logger.Debugf("ins relative [%d] need fix : ", (addr)+pos+ins.Len)
 
-	if (addr > 0 && (addr)+pos+ins.Len >= blockSize) ||
+	// addr == 0 names the next instruction, which lies outside the block for the last one
+	if (addr >= 0 && (addr)+pos+ins.Len >= blockSize) ||
 		(addr < 0 && (addr)+pos+ins.Len < 0) {
 		if ins.Op.String() == bytecode.CallInsName {
 			logger.Debug((int64)(from)-(int64)(trampoline), from, trampoline, int32(addr))
